@@ -142,6 +142,11 @@ type c05val struct {
 func (S05) RunTape(t *sim.Tape, st *sim.Stats, keepLog bool) *sim.Outcome {
 	o := &sim.Outcome{}
 	boundTS = newBoundTS()
+	useMust = t.Pct(20, "cfg.must")
+	defer func() { useMust = false }()
+	if useMust {
+		st.Inc("probe.must_forms")
+	}
 	s := sim.NewSim(t, sim.NewChanBaton())
 	s.Log.Keep = keepLog
 	s.MaxSteps = 400000
@@ -433,7 +438,12 @@ func (S05) RunTape(t *sim.Tape, st *sim.Stats, keepLog bool) *sim.Outcome {
 					storeStarted[mk] = inv
 				}
 			}
-			pan := catch(func() { l, err = lsys.Store(linking.LinkContext{}, lp, n) })
+			var pan string
+			if useMust {
+				err, pan = catchErr(func() { l = lsys.MustStore(linking.LinkContext{}, lp, n) })
+			} else {
+				pan = catch(func() { l, err = lsys.Store(linking.LinkContext{}, lp, n) })
+			}
 			if err != nil && d != nil && (errors.Is(err, syscall.ENAMETOOLONG) || (ncl > 1 && errors.Is(err, syscall.EEXIST))) {
 				// the filesystem's name-length limit, or fsstore losing a mkdir race to a concurrent
 				// writer: availability of the backend, not a statement about links
@@ -457,7 +467,13 @@ func (S05) RunTape(t *sim.Tape, st *sim.Stats, keepLog bool) *sim.Outcome {
 			hist = append(hist, fmt.Sprintf("c%d Store(v%d,%s)", client, vi, impl))
 		case 1: // ComputeLink
 			n, impl := materialise(vi, p.how)
-			l, err := lsys.ComputeLink(lp, n)
+			var l datamodel.Link
+			var err error
+			if useMust {
+				err, _ = catchErr(func() { l = lsys.MustComputeLink(lp, n) })
+			} else {
+				l, err = lsys.ComputeLink(lp, n)
+			}
 			if err != nil {
 				o.Fail("computelink-failed", sig, "ComputeLink of value #%d failed: %v", vi, err)
 				return
